@@ -362,6 +362,13 @@ def _check_apply(V, sysd, ta, eso, U, tag):
                      ("apply(own-axis)", lambda: eso.apply(eso.time, rho), list(range(Nt))),
                      ("apply(list)", lambda: eso.apply(list(times), rho), list(range(Nt))),
                      ("apply(sub-list)", lambda: eso.apply(list(sub_list), rho), sub_idx),
+                     ("apply(sub-list)", lambda: eso.apply([times[i] for i in range(1, Nt, 2)], rho),
+                      list(range(1, Nt, 2))),
+                     ("apply(sub-list)", lambda: eso.apply([times[i] for i in range(2, Nt)], rho),
+                      list(range(2, Nt))),
+                     ("apply(sub-TimeAxis)",
+                      lambda: eso.apply(qr.TimeAxis(times[1], len(range(1, Nt, 2)), 2 * ta.step),
+                                        rho), list(range(1, Nt, 2))),
                      ("apply(tuple)", lambda: eso.apply(tuple(times), rho), list(range(Nt))),
                      ("apply(equal-TimeAxis)",
                       lambda: eso.apply(qr.TimeAxis(ta.start, Nt, ta.step), rho), list(range(Nt))),
@@ -575,6 +582,31 @@ def eval_case(case):
         _check_propagation(V, sysd, ta, nd, grids, U, props, fine, t2)
         if nd == dense[min(1, len(dense) - 1)]:
             _check_apply(V, sysd, ta, eso, U, t2)
+    # history on ONE object: calculate(), change the dense step, calculate() again - the second
+    # result must be the one a fresh object gives for the new setting (rounding level)
+    seq = [nd for nd in dense if Ucache.get(nd) is not None]
+    if len(seq) >= 2:
+        for order in (seq, seq[::-1]):
+            e1 = _eso(sysd, ta, order[0], "all")
+            try:
+                e1.calculate()
+                for nd2 in order[1:]:
+                    e1.set_dense_dt(nd2)
+                    e1.calculate()
+                    dev = _dev(numpy.array(e1.data), Ucache[nd2])
+                    tol = RTOL * max(1.0, _amax(Ucache[nd2]))
+                    V.see("recalculate-after-set_dense_dt", dev, tol)
+                    if not dev <= tol:
+                        V.add("recalculate/after-set_dense_dt/differs-from-fresh-object",
+                              "%s: calculate() after set_dense_dt(%d) on an object that was "
+                              "calculated with dense settings %r before differs from a fresh "
+                              "object by %g" % (tag, nd2, order[:order.index(nd2)], dev),
+                              {"order": order, "nd": nd2, "err": dev})
+                        break
+            except Exception as ex:
+                V.add("recalculate/after-set_dense_dt/raises-%s" % type(ex).__name__,
+                      "%s: second calculate() raised %s" % (tag, str(ex)[:100]), None)
+            nextra += len(order)
     # refinement doubling
     for nd in dense:
         U1, U2 = Ucache.get(nd), Ucache.get(2 * nd)
